@@ -428,6 +428,25 @@ def scenarios_c06():
     out.append(('new: post 1.36 null|put 1.39 null typed', {
         'A': post_allocs({K3: (a1, 'null', 'pA')}, '1.36'),
         'B': put_alloc(K3, a2, 'null', 'pB', ctype='MIGRATION')}))
+    # a write that re-sends exactly what the consumer already holds is still
+    # a write: it is guarded by, and moves, the consumer generation
+    def _held(d, c):
+        out_ = {}
+        for (cc, p, rc), used in d.allocs.items():
+            if cc == c:
+                out_.setdefault(p, {})[rc] = used
+        return out_
+    out.append(('existing: post unchanged|put:cur', {
+        'A': lambda d: post_allocs({K1: (_held(d, K1), 'cur',
+                                         d.consumers[K1]['project'])})(d),
+        'B': put_alloc(K1, a1, 'cur', 'pB')}))
+    out.append(('existing: put unchanged|put unchanged', {
+        'A': lambda d: put_alloc(K1, _held(d, K1), 'cur',
+                                 d.consumers[K1]['project'],
+                                 d.consumers[K1]['user'])(d),
+        'B': lambda d: put_alloc(K1, _held(d, K1), 'cur',
+                                 d.consumers[K1]['project'],
+                                 d.consumers[K1]['user'])(d)}))
     # clearing writes in flight together
     out.append(('existing: put-clear|put-clear identical', {
         'A': put_alloc(K1, {}, 'cur', 'pA'),
@@ -521,6 +540,23 @@ def scenarios_c07():
         'A': put_traits(E, 'cur', ['CUSTOM_T1']),
         'B': put_traits(E, 'cur', ['CUSTOM_T1']),
         'C': put_traits(E, 'cur', ['CUSTOM_T1'])}))
+    # a reshape that empties a provider (and the consumers on it) racing
+    # generation-guarded writes and claims on that provider
+    def _solo(client):
+        r = client.call('PUT', '/allocations/%s' % K4, {
+            'allocations': {E: {'resources': {'VCPU': 2}}},
+            'project_id': 'pS', 'user_id': 'uS',
+            'consumer_generation': None, 'consumer_type': 'INSTANCE'})
+        assert r.status == 204, r.status
+    for oname, ob in (
+            ('traits', put_traits(E, 'cur', ['CUSTOM_T1'])),
+            ('inventories', put_invs(E, 'cur', {'VCPU': {'total': 16}})),
+            ('aggregates', put_aggs(E, 'cur', [A1])),
+            ('claim', put_alloc(K3, {E: {'VCPU': 1}}, 'null'))):
+        out.append(('reshape retiring E and its consumer | %s' % oname,
+                    {'A': reshape_drop(E), 'B': ob}, _solo))
+    out.append(('reshape emptying S | traits of S', {
+        'A': reshape_drop(S), 'B': put_traits(S, 'cur', ['CUSTOM_UNUSED'])}))
     out.append(('claim vs delete of other consumer + inventory shrink', {
         'A': put_alloc(K3, {E: {'VCPU': 4}}, 'null'),
         'B': put_alloc(K1, {}, 'cur', world.PROJECT, world.USER),
@@ -792,6 +828,38 @@ def judge(pid, scen_name, reqs, d0, result, serial, res, use_serial=True):
                                 'had generation %r' % bg if bcur
                                 else 'did not exist'), wit)
                     break
+    # a success that carries a generation for an EXISTING consumer and names
+    # allocations for it went through the compare-and-swap: one of its own
+    # commits moved that consumer's generation on from the carried value
+    for n in succ:
+        tag = reqs[n]['tag'] or {}
+        body = reqs[n]['body'] if isinstance(reqs[n]['body'], dict) else {}
+        for c, cg in (tag.get('cgen') or {}).items():
+            if cg is None or c not in d0.consumers:
+                continue
+            if reqs[n]['path'].startswith('/allocations/'):
+                named = body.get('allocations')
+            elif reqs[n]['path'].startswith('/reshaper'):
+                named = ((body.get('allocations') or {}).get(c) or {}).get(
+                    'allocations')
+            else:
+                named = (body.get(c) or {}).get('allocations')
+            if not named:
+                continue
+            res.count('consumer_cas_checks')
+            moved = any(
+                seq[i][1] == n and c in seq[i - 1][2].consumers and
+                seq[i - 1][2].consumers[c]['generation'] == cg and
+                seq[i][2].consumers.get(c, {}).get('generation') != cg
+                for i in range(1, len(seq)))
+            if not moved:
+                res.violation(
+                    '%s|success-without-consumer-generation-compare-and-'
+                    'swap|%s' % (pid, scen_name),
+                    '%s [%s]: %s answered %s carrying consumer_generation '
+                    '%r for %s, but none of its commits moved the consumer '
+                    'on from that generation' % (
+                        scen_name, order, n, statuses[n], cg, c), wit)
     # at most one success per carried (provider, generation) / (consumer,
     # generation) among the requests of one run
     seen_p, seen_c = {}, {}
